@@ -33,7 +33,20 @@ var apiTexts = map[string]string{
 	"orset":  `"2021-01-02T07:23:12+03:00" // {or: [{type: "datetime"}, {type: "integer", min: 1}, "email"]}`,
 	"rich":   "{ // {additionalProperties: \"string\"}\n  \"e\": \"x\", // {enum: [\"x\", 1, null]}\n  \"d\": \"2021-12-31\", // {type: \"date\", optional: true}\n  \"u\": [ // {minItems: 1}\n    \"550e8400-e29b-41d4-a716-446655440000\" // {type: \"uuid\"}\n  ],\n  \"c\": @t | @u\n}",
 	"typeU":  `12.5 // {type: "decimal", precision: 1, nullable: true}`,
+	"big":    apiBigText(),
 }
+
+func apiBigText() string {
+	var sb strings.Builder
+	sb.WriteString("{\n")
+	for i := 0; i < 150; i++ {
+		fmt.Fprintf(&sb, "  \"p%d\": %d, // {min: 0}\n", i, i)
+	}
+	sb.WriteString("  \"last\": [1, 2, 3]\n}")
+	return sb.String()
+}
+
+var _ = fmt.Sprint
 
 func apiTypeName(content string) string {
 	if content == "typeT" {
